@@ -213,10 +213,27 @@ def has_meta_legs(v):
     return False
 
 
+def derived_from_meta_product(task, slot, _seen=None):
+    """The object in `slot` is (a sum / product / view of) the result of multiply(mode='meta'): its virtual legs are, or are blocks of, meta-fused legs."""
+    seen = _seen if _seen is not None else set()
+    if slot in seen:
+        return False
+    seen.add(slot)
+    if has_meta_legs(task.slots.get(slot)):
+        return True
+    for r in getattr(task, "progs", {}).values():
+        if slot in r.get("out", []) or (OPS_[r["op"]].inplace and r["in"][:1] == [slot]):
+            if r["op"] == "m_matmul" and r["args"].get("mode") == "meta":
+                return True
+            if any(derived_from_meta_product(task, s, seen) for s in r["in"] if s != slot):
+                return True
+    return False
+
+
 def known_meta_product(task, rec, exc):
     """Known finding K-C06-meta-product: see /verif/known_findings.json."""
     meta_cfg = task.cfgspec.get("default_fusion") == "meta"
-    if isinstance(exc, (yastn.YastnError, ValueError)) and (meta_cfg or any(has_meta_legs(task.slots.get(s)) for s in rec["in"])):
+    if isinstance(exc, (yastn.YastnError, ValueError)) and (meta_cfg or any(derived_from_meta_product(task, s) for s in rec["in"])):
         core.known_hit("K-%s-meta-product" % getattr(core.current_world(), "prop", "C06"))
         return True
     return False
@@ -563,6 +580,9 @@ class MUnary(e1.Op):
         a = pick(g, lambda v, sh: sh is not None)
         if a is None:
             return None
+        mid = objs(g.task, lambda v, sh: sh is not None and v.pC is not None)      # mid-sweep states (central block pending): views/copies must carry it along
+        if mid and g.rng.random() < 0.4:
+            a = g.rng.choice(mid)
         v = g.val(a)
         kinds = ["conj", "reverse_sites", "copy", "clone", "shallow_copy"]
         if v.nr_phys == 2:
@@ -598,7 +618,8 @@ class MMeasure(e1.Op):
 
     def gen(self, g):
         rng = g.rng
-        ket = pick(g, lambda v, sh: sh is not None and v.nr_phys == 1)
+        # measurement functions see the site tensors only: an operand still holding a central block (mid-sweep) is outside their contract
+        ket = pick(g, lambda v, sh: sh is not None and v.nr_phys == 1 and v.pC is None)
         if ket is None:
             return None
         kind = rng.choice(["overlap", "mpo", "mpo", "mpo_sum", "vdot", "norm", "mpo_reversed", "mpo_reversed"])
@@ -607,7 +628,7 @@ class MMeasure(e1.Op):
         vk = g.val(ket)
 
         def okbra(v, sh):
-            return sh is not None and v.nr_phys == 1 and braket(v, vk)
+            return sh is not None and v.nr_phys == 1 and v.pC is None and braket(v, vk)
         bra = pick(g, okbra) if rng.random() < 0.6 else ket
         if bra is None:
             bra = ket
@@ -725,6 +746,9 @@ class MInplace(e1.Op):
         a = pick(g, lambda v, sh: sh is not None)
         if a is None:
             return None
+        mpos = objs(g.task, lambda v, sh: nonzero(sh) and v.nr_phys == 2)       # operators go through the same state machine (less often picked by chance)
+        if mpos and rng.random() < 0.3:
+            a = rng.choice(mpos)
         v = g.val(a)
         N = v.N
         if v.pC is None:
@@ -922,6 +946,7 @@ class MSpectrum(e1.Op):
 
 
 E2_WEIGHTS_C06 = {"m_random_mps": 3, "m_random_mpo": 2, "m_product_mps": 1.5, "m_product_mpo": 1.5, "m_generate_mpo": 2, "m_from_tensor": 1,
-                  "m_add": 5, "m_scal": 3, "m_matmul": 4, "m_unary": 4, "m_measure": 6, "m_zipper": 2.5, "m_compression": 2}
+                  "m_add": 5, "m_scal": 3, "m_matmul": 4, "m_unary": 4, "m_measure": 6, "m_zipper": 2.5, "m_compression": 2,
+                  "m_inplace": 3}      # algebra must also hold on mid-sweep objects (central block pending, norm in .factor)
 E2_WEIGHTS_C08 = {"m_random_mps": 3, "m_random_mpo": 1.5, "m_product_mps": 0.7, "m_generate_mpo": 1, "m_from_tensor": 1, "m_add": 2, "m_scal": 1.5, "m_matmul": 1,
                   "m_unary": 2.5, "m_inplace": 12, "m_spectrum": 4, "m_degenerate": 1.5}
